@@ -1,13 +1,14 @@
 import Props.C03
 import Proofs.SchedSpec
+import Proofs.SchedExec
 /-!
 # C02 — the run outcome depends on the graph and the task results only, not on the schedule
 
 `spec c t` (Proofs/SchedSpec.lean) is defined by recursion on the task number from the hard dependencies and the task
 outcomes alone: neither the number of workers, nor the soft dependencies, nor any interleaving appears in it.
 `final_status_eq_spec`: after scheduling from an empty environment, **every** terminal state of **every** execution has
-status map `spec`.  The execution counters (each non-skipped task runs exactly once) are checked by the oracle on
-every run and are not yet a theorem (`exec_count` is therefore absent: the statement proved is the status part).
+status map `spec`; `exec_at_most_once` / `exec_count_eq_spec`: no task body runs twice, and at return exactly the
+non-SKIPPED tasks have run once (invariant `InvE`, Proofs/SchedExec.lean).
 -/
 namespace Sched
 set_option linter.unusedVariables false
@@ -87,6 +88,88 @@ theorem soft_never_blocks (c : Cfg) (deps' : List (List Nat)) (t : Nat) :
     | zero => rfl
     | succ k ih => simp only [specUpTo, ih]; rfl
   unfold spec; rw [this]
+
+/-! ### execution counts -/
+
+theorem InvE_init {c : Cfg} (env : Env) (q : List (Option Nat)) (u clk : Nat) (hq : QueueOK q) :
+    InvE c (init c env q u clk) := by
+  have hnp : ∀ t, (init c env q u clk).mpc ≠ .put t := by
+    intro t; simp only [init]; split <;> (try split) <;> (try split) <;> simp
+  have hqm : ∀ t, some t ∉ q := by
+    intro t ht
+    have : t ∈ q.filterMap id := List.mem_filterMap.2 ⟨some t, ht, rfl⟩
+    rw [hq] at this; simp at this
+  refine ⟨fun _ _ => rfl, fun _ _ => rfl, ?_, ?_, fun _ _ => rfl⟩
+  · intro w t hr
+    rcases hr with ⟨a, hh⟩ | ⟨a, b, hh⟩ | ⟨a, b, hh⟩ | hh <;> simp [init] at hh
+  · intro t x ht hu; exfalso; apply hu; left; show t ∈ List.range c.n; simp [ht]
+
+theorem InvABCE_reach {c : Cfg} (hc : c.WF) {s0 s : State} (ha : InvA c s0) (hcc : InvC c s0) (hb : InvB c s0)
+    (he : InvE c s0) (hr : Reach c s0 s) : InvA c s ∧ InvC c s ∧ InvB c s ∧ InvE c s := by
+  induction hr with
+  | init => exact ⟨ha, hcc, hb, he⟩
+  | step _ hs ih =>
+    exact ⟨InvA_step hc ih.1 hs, InvC_step hc ih.1 ih.2.1 hs, InvB_step hc ih.1 ih.2.1 ih.2.2.1 hs,
+      InvE_step hc ih.1 ih.2.2.1 ih.2.2.2 hs⟩
+
+/-- **no task body is ever executed twice**: in every reachable state of every execution, for every interleaving -/
+theorem exec_at_most_once {c : Cfg} (hc : c.WF) (hw : 0 < c.workers) (env : Env) (he : EmptyEnv env) (clk : Nat)
+    {s : State} (hr : Reach c (init c env [] 0 clk) s) (t : Nat) : s.execCount t ≤ 1 := by
+  obtain ⟨ha, hcc, hb, hE⟩ := InvABCE_reach hc (InvA_init env [] 0 clk he.ok rfl) (InvC_init hw env clk) (InvB_init env he clk)
+    (InvE_init env [] 0 clk rfl) hr
+  by_cases ht : t < c.n
+  · by_cases hu : Undecided s t
+    · rw [hE.undecided_zero t hu]; exact Nat.zero_le _
+    · obtain ⟨x, hx, hs⟩ := ha.decided_status t ht hu
+      rcases hs with hp | hf
+      · -- pending: the task is in flight, either not started yet or running
+        rcases hcc.pending_inflight t x ht hu hx hp with h1 | h1 | ⟨w, h1⟩
+        · rw [hE.notstarted_zero t (Or.inl h1)]; exact Nat.zero_le _
+        · rw [hE.notstarted_zero t (Or.inr (Or.inl h1))]; exact Nat.zero_le _
+        · cases hpc : s.wpc w with
+          | timeStart t' =>
+            rw [hpc] at h1; injection h1 with h1; subst h1
+            rw [hE.notstarted_zero _ (Or.inr (Or.inr ⟨w, hpc⟩))]; exact Nat.zero_le _
+          | timeEnd t' a =>
+            rw [hpc] at h1; injection h1 with h1; subst h1
+            rw [hE.running_one w _ (by rw [hpc]; exact Or.inl ⟨a, rfl⟩)]; exact Nat.le_refl _
+          | apply t' a b =>
+            rw [hpc] at h1; injection h1 with h1; subst h1
+            rw [hE.running_one w _ (by rw [hpc]; exact Or.inr (Or.inl ⟨a, b, rfl⟩))]; exact Nat.le_refl _
+          | clocks t' a b =>
+            rw [hpc] at h1; injection h1 with h1; subst h1
+            rw [hE.running_one w _ (by rw [hpc]; exact Or.inr (Or.inr (Or.inl ⟨a, b, rfl⟩)))]; exact Nat.le_refl _
+          | status t' =>
+            rw [hpc] at h1; injection h1 with h1; subst h1
+            rw [hE.running_one w _ (by rw [hpc]; exact Or.inr (Or.inr (Or.inr rfl)))]; exact Nat.le_refl _
+          | notStarted | begin | get | taskDone | cacq | notify | sentinelDone | exited => rw [hpc] at h1; cases h1
+      · obtain ⟨h0, h1⟩ := hE.decided t x ht hu hx
+        cases hst : x.st with
+        | skipped => rw [h0 hst]; exact Nat.zero_le _
+        | done => rw [h1 (Or.inl hst)]; exact Nat.le_refl _
+        | failed => rw [h1 (Or.inr hst)]; exact Nat.le_refl _
+        | waiting => rw [hst] at hf; cases hf
+        | pending => rw [hst] at hf; cases hf
+  · rw [hE.beyond t (by omega)]; exact Nat.zero_le _
+
+/-- **each task is executed exactly once, except the SKIPPED ones, which are never executed** (when the call has
+returned, from an empty environment, for every interleaving and worker count) -/
+theorem exec_count_eq_spec {c : Cfg} (hc : c.WF) (hw : 0 < c.workers) (env : Env) (he : EmptyEnv env) (clk : Nat)
+    {s : State} (hr : Reach c (init c env [] 0 clk) s) (hret : s.mpc = .returned) (t : Nat) (ht : t < c.n) :
+    s.execCount t = if spec c t = .skipped then 0 else 1 := by
+  obtain ⟨ha, hcc, hb, hE⟩ := InvABCE_reach hc (InvA_init env [] 0 clk he.ok rfl) (InvC_init hw env clk) (InvB_init env he clk)
+    (InvE_init env [] 0 clk rfl) hr
+  obtain ⟨x, hx, hs, hf⟩ := final_status_eq_spec hc hw env he clk hr hret t ht
+  obtain ⟨htodo, hleft⟩ := hcc.after_loop (by rw [hret]; rfl)
+  have hu : ¬ Undecided s t := by rintro (h | h) <;> simp [htodo, hleft] at h
+  obtain ⟨h0, h1⟩ := hE.decided t x ht hu hx
+  rw [← hs]
+  cases hst : x.st with
+  | skipped => rw [h0 hst]; rfl
+  | done => rw [h1 (Or.inl hst)]; rfl
+  | failed => rw [h1 (Or.inr hst)]; rfl
+  | waiting => rw [hst] at hf; cases hf
+  | pending => rw [hst] at hf; cases hf
 
 /-- non-vacuity: a diamond with a failing task; `spec` is computed by the kernel -/
 example : (List.range 4).map (spec ⟨4, [[], [0], [0], [1, 2]], [[], [0], [], [1]], [.done, .raises, .done, .done], 2, false⟩)
